@@ -11,7 +11,11 @@ import ast
 
 import z3
 
-from .core import SV, PyRaise, Unsupported, as_int, fresh, kind_of, lit, term
+import itertools
+
+from .core import _SORT, SV, PyRaise, Unsupported, as_int, fresh, kind_of, lit, term
+
+_split_ctr = itertools.count()
 from .values import Builtin, Model, Obj, SymSeq
 
 S = z3.StringSort()
@@ -34,6 +38,33 @@ f_decodable = z3.Function("py_decodable", S, B)
 f_int_of = z3.Function("py_int_of_str", S, I)
 
 WS_CHARS = [" ", "\t", "\n", "\r", "\x0b", "\x0c", "\x1c", "\x1d", "\x1e", "\x1f", "\x85", "\xa0"]
+
+
+class GhostSeq(Model):
+    """append-only ghost sequence (Array Int T, len): lines written to a stream, replies queued, ..."""
+
+    model_name = "ghostseq"
+
+    def __init__(self, elem="str", hint="gs"):
+        super().__init__()
+        self.elem = elem
+        self.hint = hint
+        self.arr = z3.Const(f"{hint}!{next(_split_ctr)}", z3.ArraySort(I, _SORT[elem]))
+        self.len = z3.Int(f"{hint}len!{next(_split_ctr)}")
+
+    def append(self, it, v):
+        new = z3.Const(f"{self.hint}!{next(_split_ctr)}", self.arr.sort())
+        it.ctx.assume(new == z3.Store(self.arr, self.len, term(v)))
+        self.arr = new
+        self.len = z3.simplify(self.len + 1)
+
+    def havoc(self, it, name=None):
+        self.arr = z3.Const(f"{self.hint}!{next(_split_ctr)}", z3.ArraySort(I, _SORT[self.elem]))
+        self.len = z3.Int(f"{self.hint}len!{next(_split_ctr)}")
+        return self
+
+    def as_symseq(self):
+        return SymSeq(self.elem, self.arr, self.len)
 
 
 def sv_str(t):
@@ -609,11 +640,6 @@ def m_split(it, s, args, kwargs):
     return SymSeq("str", arr, n, kind="list")
 
 
-import itertools
-
-_split_ctr = itertools.count()
-
-
 def m_len(it, s):
     if isinstance(s, SV):
         n = fresh("int", "len")
@@ -846,7 +872,36 @@ def seq_unpack(it, seq, n_targets, star_idx):
 
 
 def symseq_method(it, v, name):
+    if name == "append":
+
+        def append(it2, a, k):
+            new = z3.Const(f"seq!{next(_split_ctr)}", v.arr.sort())
+            it2.ctx.assume(new == z3.Store(v.arr, v.length, term(it2.unbox(a[0]))))
+            v.arr = new
+            v.length = z3.simplify(v.length + 1)
+
+        return Builtin("symseq.append", append)
     raise Unsupported(f"method {name!r} on symbolic sequence")
+
+
+def list_to_symseq(it, v, elem="str"):
+    """a concrete-length python list of scalars as (Array, len)"""
+    if isinstance(v, SymSeq):
+        return v
+    arr = z3.Const(f"lst!{next(_split_ctr)}", z3.ArraySort(I, _SORT[elem]))
+    for i, x in enumerate(v):
+        it.ctx.assume(arr[i] == term(it.unbox(x)))
+    return SymSeq(elem, arr, z3.IntVal(len(v)), kind="list" if isinstance(v, list) else "tuple")
+
+
+def forall(vars_, body, pattern=None):
+    """quantifier with an e-matching pattern when z3 accepts it"""
+    if pattern is not None:
+        try:
+            return z3.ForAll(vars_, body, patterns=[pattern])
+        except z3.Z3Exception:
+            pass
+    return z3.ForAll(vars_, body)
 
 
 def for_symseq(it, spec, lname, env, qual, s, seq):
@@ -866,4 +921,17 @@ def for_symseq(it, spec, lname, env, qual, s, seq):
 
     spec.extra_targets = {idx_name}
     spec.seq = seq
-    it.inv_loop(spec, lname, env, qual, s, cond, pre_body)
+    user_havoc = spec.havoc_fn
+
+    def havoc_and_bound(it2, env2):
+        # inherent to the desugaring: the index counts consumed elements, 0 <= _i <= len
+        i = env2.vars[idx_name]
+        it2.ctx.assume(z3.And(as_int(i) >= 0, as_int(i) <= seq.length))
+        if user_havoc:
+            user_havoc(it2, env2)
+
+    spec.havoc_fn = havoc_and_bound
+    try:
+        it.inv_loop(spec, lname, env, qual, s, cond, pre_body)
+    finally:
+        spec.havoc_fn = user_havoc
